@@ -91,6 +91,10 @@ void drv_apply(const char* op)
   else if(!strcmp(op, "assignb")) b = *B[o];
   else if(!strcmp(op, "appendb")) b.append(*B[o]);
   else if(!strcmp(op, "prependb")) b.prepend(*B[o]);
+  else if(!strcmp(op, "assignself")) { Buffer& self = b; b = self; }
+  else if(!strcmp(op, "appendself")) b.append(b);
+  else if(!strcmp(op, "prependself")) b.prepend(b);
+  else if(!strcmp(op, "swapself")) b.swap(b);
   else if(!strcmp(op, "eq")) { hasRes = 1; res = (*B[1] == *B[2]) ? 1 : 0; if(res != !(*B[1] != *B[2])) res = 2; }
   else if(!strcmp(op, "attach"))
   {
